@@ -171,6 +171,19 @@ Proof.
   intros i j Hi Hj. assert (Hrr : (i * W + j < H * W)%nat) by nia.
   specialize (Ex (i * W + j)%nat Hrr). unfold vec in Ex. rewrite (dm_div' i W j Hj), (dm_mod' i W j Hj) in Ex. exact Ex.
 Qed.
+(* the restoration is linear in B (real coefficients) *)
+Hypothesis Fi_add : forall s t, Fi (rmadd s t) =w rmadd (Fi s) (Fi t).
+Hypothesis Fi_scale : forall c s, Fi (rmscale c s) =w rmscale c (Fi s).
+Hypothesis kdiv_add : forall a b d, kdiv (a + b) d = kdiv a d + kdiv b d.
+Hypothesis kdiv_scale : forall c a d, kdiv (c * a) d = c * kdiv a d.
+Theorem C17_restore_fft_linear B1 B2 psf lam c0' ch : kre c0' = c0' ->
+  gen_restore_fft K kconj kre kabs2 kdiv fft2 ifft2 H W kH kW (fun ch => rmadd (rmscale c0' (B1 ch)) (B2 ch)) psf lam ch
+  =w rmadd (rmscale c0' (gen_restore_fft K kconj kre kabs2 kdiv fft2 ifft2 H W kH kW B1 psf lam ch)) (gen_restore_fft K kconj kre kabs2 kdiv fft2 ifft2 H W kH kW B2 psf lam ch).
+Proof.
+  intros Rc.
+  exact (tik_restore_linear K kconj kre kabs2 kdiv H W F Fi Fi_w F_add F_scale kre_add kre_scale Fi_add Fi_scale kdiv_add kdiv_scale (PADK psf) (B1 ch) (B2 ch) c0' lam Rc).
+Qed.
+
 End S.
 
 Print Assumptions C17_ATop_is_transpose.
@@ -178,6 +191,7 @@ Print Assumptions C17_blur_fft_is_documented_operator.
 Print Assumptions C17_restore_fft_solves_normal_equations.
 Print Assumptions C17_restore_fft_inverts_blur.
 Print Assumptions C17_restore_fft_channelwise.
+Print Assumptions C17_restore_fft_linear.
 Print Assumptions C17_restore_matrix_solves_normal_equations.
 Print Assumptions C17_dense_builder_represents_operator.
 Print Assumptions C17_builders_agree.
@@ -234,6 +248,13 @@ Proof.
   unfold xabs2 in E2. apply xmul_integral in E2; [|exact Hn]. apply Hn.
   rewrite <- (xconj_invol (dft H W (PADK CxR H W kH kW psf) u v)), E2. unfold xconj, x0. cbn [fst snd]. f_equal. lra.
 Qed.
+Theorem C17_restore_fft_linear_DFT B1 B2 psf lam c ch : xre c = c ->
+  weq H W (gen_restore (fun ch => rmadd (rmscale (c : CxR) (B1 ch)) (B2 ch)) psf lam ch) (rmadd (rmscale (c : CxR) (gen_restore B1 psf lam ch)) (gen_restore B2 psf lam ch)).
+Proof.
+  intros Rc.
+  exact (C17_restore_fft_linear CxR xconj xre xabs2 xdiv (fun H W => dft H W) (fun H W => idft H W) H W kH kW
+           (idft_w H W) (dft_add H W) (dft_scale H W) xre_add xre_scale (idft_add H W) (idft_scale H W) xdiv_add xdiv_scale B1 B2 psf lam c ch Rc).
+Qed.
 Definition xeq0 (z : Cx) : bool := if Req_EM_T (fst z) 0 then (if Req_EM_T (snd z) 0 then true else false) else false.
 Lemma xeq0_spec z : xeq0 z = true -> z = x0.
 Proof. destruct z as [p q]. unfold xeq0, x0. cbn [fst snd]. destruct (Req_EM_T p 0), (Req_EM_T q 0); intros E; try discriminate. now subst. Qed.
@@ -260,3 +281,4 @@ Print Assumptions C17_blur_fft_is_documented_operator_DFT.
 Print Assumptions C17_restore_fft_solves_normal_equations_DFT.
 Print Assumptions C17_restore_fft_inverts_blur_DFT.
 Print Assumptions C17_matrix_path_equals_fft_path_DFT.
+Print Assumptions C17_restore_fft_linear_DFT.
